@@ -195,14 +195,46 @@ fn check_noise(case: &Case, l: &mut Local) -> Verdict {
     Verdict::Pass { nontrivial: lone && any }
 }
 
+fn gen_small(src: &mut Src, _t: Tier) -> Case {
+    let v = super::c01::small_slice(true);
+    v[(src.raw() as usize).min(v.len() - 1)].clone()
+}
+
+/// bounded-exhaustive: the small-pattern grammar of C01 with b spelled as U+1F600 (a surrogate pair in UTF-16),
+/// flags - and u, all haystacks over {a, e-acute, U+1F600} up to length 3, starts 0 / second boundary / len+1
+fn check_small(case: &Case, l: &mut Local) -> Verdict {
+    static HAYS: std::sync::OnceLock<Vec<String>> = std::sync::OnceLock::new();
+    let hays = HAYS.get_or_init(|| all_strings(&[0x61, 0xE9, 0x1F600], 3));
+    let pat = respell_b(&case.pat, 0x1F600);
+    let mut nontrivial = false;
+    for fl in ["", "u"] {
+        for h in hays {
+            let second = h.chars().next().map(|c| c.len_utf8()).unwrap_or(0);
+            for s in [0usize, second, h.len() + 1] {
+                let c = Case { pat: pat.clone(), hay: h.clone(), start: s, flags: fl.to_string(), ..case.clone() };
+                match check(&c, l) {
+                    Verdict::Fail(m) => return Verdict::Fail(format!("/{}/{} on \"{}\" from {}: {}", show(&pat), fl, h, s, m)),
+                    Verdict::Pass { nontrivial: n } => nontrivial |= n,
+                    _ => {}
+                }
+            }
+        }
+    }
+    Verdict::Pass { nontrivial }
+}
+
+pub static VX: Variant = Variant { name: "exhaustive_small_patterns", choice_len: 1, gen: gen_small, check: check_small };
 pub static V: Variant = Variant { name: "utf16_vs_utf8", choice_len: 400, gen, check };
 pub static VN: Variant = Variant { name: "u16_noise", choice_len: 400, gen: gen_noise, check: check_noise };
 
 pub fn variants() -> Vec<&'static Variant> {
-    vec![&V, &VN]
+    vec![&V, &VN, &VX]
 }
 
 pub fn run(ctx: &Ctx) -> i32 {
+    let slice = super::c01::small_slice(true);
+    let part: Vec<Case> = slice.iter().enumerate().filter(|(i, _)| ctx.tier == Tier::Thorough || i % 16 == 0).map(|(_, c)| c.clone()).collect();
+    ctx.run_list(&VX, &part);
     ctx.run_variant(&V, ctx.scale(400_000, 6_000_000));
     ctx.run_variant(&VN, ctx.scale(300_000, 4_000_000));
     if std::env::var("VERIF_SUMMARY_ONLY").is_err() {
@@ -211,7 +243,7 @@ pub fn run(ctx: &Ctx) -> i32 {
     }
     ctx.finish(
         "exploration",
-        "(built with regress' utf16 feature) random ES patterns x Unicode strings over 1-4-byte alphabets incl. astral case pairs (Deseret, Adlam, Medefaidrin), BMP edges (D7FF/E000/FFFF/10000) x every start: find_from_utf16(encode_utf16(t), start16) with offsets translated back must equal find_from(t, start8) - all matches, all captures, opt and no_opt; on text without supplementary characters find_from_ucs2 as well. Arbitrary u16 slices (lone / reversed surrogates at both ends, noise biased to D800-DFFF) with any start <= len+1: both entry points must terminate (fuel), not panic, report ranges inside the slice, after the start, and (utf16) never between the halves of a well-formed pair. Non-trivial = supplementary text with a match / lone surrogates with a match.",
+        "(built with regress' utf16 feature) (bounded-exhaustive) the small-pattern grammar of C01 with b spelled as U+1F600 (a sixteenth of it in the quick tier), flags - and u, x all haystacks over {a, e-acute, U+1F600} up to length 3 x starts 0, second boundary, len+1; random ES patterns x Unicode strings over 1-4-byte alphabets incl. astral case pairs (Deseret, Adlam, Medefaidrin), BMP edges (D7FF/E000/FFFF/10000) x every start: find_from_utf16(encode_utf16(t), start16) with offsets translated back must equal find_from(t, start8) - all matches, all captures, opt and no_opt; on text without supplementary characters find_from_ucs2 as well. Arbitrary u16 slices (lone / reversed surrogates at both ends, noise biased to D800-DFFF) with any start <= len+1: both entry points must terminate (fuel), not panic, report ranges inside the slice, after the start, and (utf16) never between the halves of a well-formed pair. Non-trivial = supplementary text with a match / lone surrogates with a match.",
         &["the UTF-8 search of the same (utf16-feature) build is the reference; its own correctness is C01's concern", "fuel hook"],
     )
 }
